@@ -4,16 +4,43 @@ From MDK Require Import Base.Prelude Base.AMap Mdk.Engine Mdk.EngineSpec Mdk.Eng
 (* every event, in every client state satisfying the record invariant: handling it a second time leaves the observable
    projection (epoch, MLS state, record, pending commit and proposals, group data, last-message pointer, stored messages,
    number of snapshots) exactly as the first handling left it *)
+(* STATEMENT CHANGE (found while proving): the hypothesis "no retained snapshot is labelled with the client's current
+   epoch" was added.  Without it the statement is false of the model: with queue = [snapshot labelled epoch 1, recorded
+   (ts,key) = (9,9)] on a client that is itself at epoch 1, a commit (ts,key) = (5,5) on the current state is applied
+   (epoch 2, a second snapshot for epoch 1 is appended), and its re-delivery takes the WrongEpoch arm, finds the OLDER
+   epoch-1 snapshot first, is "better" than (9,9) and rolls the client back to that snapshot's state.  Such a queue is not
+   reachable from init_client (snapshot labels are strictly increasing and below the current epoch in every reachable
+   state: apply_commit appends the current epoch then advances, rollback cuts the queue at the restored epoch), and
+   fork_ready (C01) contains the stronger `sn_epoch s < k_epoch (kc c)`. *)
 Theorem C07_redelivery_idempotent : forall c e, Inv c ->
+  (forall s, In s (queue c) -> sn_epoch s <> k_epoch (kc c)) ->
   proj (fst (deliver (fst (deliver c e)) e)) = proj (fst (deliver c e)).
 Proof. exact redelivery_idempotent. Qed.
 Print Assumptions C07_redelivery_idempotent.
 
 (* any number of repetitions *)
 Theorem C07_redelivery_idempotent_n : forall c e n, Inv c ->
+  (forall s, In s (queue c) -> sn_epoch s <> k_epoch (kc c)) ->
   proj (deliver_all (fst (deliver c e)) (repeat e n)) = proj (fst (deliver c e)).
 Proof. exact redelivery_idempotent_n. Qed.
 Print Assumptions C07_redelivery_idempotent_n.
+
+(* the added side condition is an invariant of every API path (queue_wf, Mdk/EngineSpec.v: snapshot labels strictly
+   increasing, below the current epoch, equal to the epoch of the stored core), so for every state reachable from
+   init_client the unrestricted statement holds *)
+Theorem C07_queue_wf_init : forall i a r, queue_wf (init_client i a r).
+Proof. exact queue_wf_init. Qed.
+Theorem C07_queue_wf_deliver : forall c e, queue_wf c -> queue_wf (fst (deliver c e)).
+Proof. exact queue_wf_deliver. Qed.
+Theorem C07_queue_wf_api : forall c e, queue_wf c ->
+  queue_wf (fst (merge_pending c)) /\ queue_wf (committed c e) /\ queue_wf (clear_pending c) /\ queue_wf (sent c e) /\ queue_wf (leave_created c e).
+Proof. exact queue_wf_api. Qed.
+Theorem C07_queue_wf_no_current : forall c, queue_wf c -> forall s, In s (queue c) -> sn_epoch s <> k_epoch (kc c).
+Proof. exact queue_wf_no_current. Qed.
+Theorem C07_redelivery_idempotent_reachable : forall i a r ds e n, let c := deliver_all (init_client i a r) ds in
+  proj (deliver_all (fst (deliver c e)) (repeat e n)) = proj (fst (deliver c e)).
+Proof. exact redelivery_idempotent_reachable. Qed.
+Print Assumptions C07_redelivery_idempotent_reachable.
 
 (* the MIP-03 comparison is irreflexive: an applied commit is never a better candidate than itself *)
 Theorem C07_same_commit_not_better : forall c e s,
